@@ -26,7 +26,7 @@ LEVEL = "model_checking"
 FAMILY = "partial"
 OBJ_PEERS, OBJ_TOPICS, OBJ_GROUPS = ["p1", "p2", "p3"], ["t1", "t2"], ["g1", "g2", "g3"]
 ALL_ACTS = '{"pub", "rpc", "hb", "close", "mesh", "gossip", "req"}'
-INVS = ["TypeOK", "P_X04_a", "P_X04_b", "P_X04_c", "P_X04_cStrict", "P_X04_d", "P_X04_e", "P_X04_f"]
+INVS = ["TypeOK", "P_X04_a", "P_X04_aDead", "P_X04_b", "P_X04_c", "P_X04_cStrict", "P_X04_d", "P_X04_e", "P_X04_f"]
 # seeded model defects: (Dev, property that must fail, extra constants)
 DEVS = [("norefresh", "P_X04_a", {}), ("ttlearly", "P_X04_a", {"CTtl": 2}), ("hbkeepempty", "P_X04_a", {}),
         ("nodecexpiry", "P_X04_b", {}), ("nodecconvert", "P_X04_b", {}),
@@ -43,7 +43,7 @@ def sset(l):
 def consts(**over):
     c = {"Peers": '{"p1", "p2"}', "Topics": '{"t1"}', "Groups": '{"g1", "g2"}', "Parts": "{0}",
          "CTtl": 1, "CLimT": 2, "CLimP": 1, "CEager": True, "CRegossip": True, "CSloppy": False,
-         "ResetOnClose": False, "StaleDec": False, "Dev": '"none"', "MaxLen": 0, "Bursts": "{}",
+         "ResetOnClose": False, "StaleDec": False, "KeepEntries": False, "Dev": '"none"', "MaxLen": 0, "Bursts": "{}",
          "Acts": '{"pub", "rpc", "hb", "close"}'}
     c.update(over)
     return c
@@ -69,19 +69,20 @@ def tlc_jobs(ctx, acc):
     mc("mc-epoch", [i for i in INVS if i != "P_X04_cStrict"], ResetOnClose=True)
     mc("mc-epoch-strict", ["P_X04_cStrict"], ResetOnClose=True)
     # the design as found: b fails (X04-F1; c follows), a d e f hold
-    mc("mc-asfound", ["TypeOK", "P_X04_a", "P_X04_d", "P_X04_e", "P_X04_f"], ResetOnClose=True, StaleDec=True)
-    mc("mc-asfound-b", ["P_X04_b"], ResetOnClose=True, StaleDec=True)
+    mc("mc-asfound", ["TypeOK", "P_X04_a", "P_X04_d", "P_X04_e", "P_X04_f"], ResetOnClose=True, StaleDec=True, KeepEntries=True)
+    mc("mc-asfound-b", ["P_X04_b"], ResetOnClose=True, StaleDec=True, KeepEntries=True)
+    mc("mc-asfound-dead", ["P_X04_aDead"], KeepEntries=True)
     for dev, prop, extra in DEVS:
         mc("mc-dev-" + dev, [prop], timeout=600, Dev='"%s"' % dev, **extra)
     if th:
         mc("mc-ideal-3groups", INVS, timeout=1500, CTtl=2, Groups='{"g1", "g2", "g3"}')
-        mc("mc-asfound-send", ["TypeOK", "P_X04_a", "P_X04_d", "P_X04_e", "P_X04_f"], timeout=1500, ResetOnClose=True, StaleDec=True,
+        mc("mc-asfound-send", ["TypeOK", "P_X04_a", "P_X04_d", "P_X04_e", "P_X04_f"], timeout=1500, ResetOnClose=True, StaleDec=True, KeepEntries=True,
            Groups='{"g1"}', Parts="{0, 1}", Acts=ALL_ACTS, Peers='{"p1", "p2", "p3"}', CLimT=1)
     node_tlc_jobs(ctx, jobs)
 
     # generators: call sequences of the object
     def gen(name, maxlen, sim=None, depth=None, **over):
-        c = consts(MaxLen=maxlen, ResetOnClose=True, StaleDec=True, **over)
+        c = consts(MaxLen=maxlen, ResetOnClose=True, StaleDec=True, KeepEntries=True, **over)
         jobs[name] = dict(module="PartialExt", cfg=vlib.cfg_text(spec="GenSpec", constants=c, invariants=["Emit"]), timeout=900, heap="6g",
                           mode="sim" if sim else "mc", simulate=("num=%d" % sim) if sim else None, depth=depth, workers=1 if sim else None)
 
@@ -113,8 +114,8 @@ def tlc_jobs(ctx, acc):
             prop = dict((d, p) for d, p, _ in DEVS + NODE_DEVS)[n.split("-dev-")[1]]
             vlib.require_mc_fails(ctx, r, "%s (seeded defect)" % n, prop)
             acc["mc"]["%s_fails_%s" % (n[3:], prop)] = True
-        elif n in ("mc-epoch-strict", "mc-asfound-b", "mc-node-asfound-g", "mc-node-asfound-k"):
-            prop = {"mc-epoch-strict": "P_X04_cStrict", "mc-asfound-b": "P_X04_b", "mc-node-asfound-g": "P_X04_g", "mc-node-asfound-k": "P_X04_k"}[n]
+        elif n in ("mc-epoch-strict", "mc-asfound-b", "mc-asfound-dead", "mc-node-asfound-g", "mc-node-asfound-k"):
+            prop = {"mc-epoch-strict": "P_X04_cStrict", "mc-asfound-b": "P_X04_b", "mc-asfound-dead": "P_X04_aDead", "mc-node-asfound-g": "P_X04_g", "mc-node-asfound-k": "P_X04_k"}[n]
             vlib.require_mc_fails(ctx, r, "%s (design as found)" % n, prop)
             acc["mc"]["%s_fails_%s" % (n[3:], prop)] = True
         else:
@@ -189,7 +190,10 @@ def obj_directed():
     add("ttl", {}, [mesh(["p1"]), req("p1"), pub("g1"), HB, HB, pub("g1"), HB, HB, HB, HB, HB, pub("g2", t="t2"), HB, pub("g1"), HB, HB, HB, HB])
     add("ttl-min", {"ttl": 1}, [mesh(["p1"]), pub("g1"), HB, HB, HB, HB, HB])
     add("ttl-4", {"ttl": 4}, [mesh(["p1"]), rpc("p2", "g2"), pub("g1"), HB, HB, HB, HB, HB, HB])
-    add("empty", {}, [pub("g1"), HB, rpc("p1", "g2", has_meta=False, has_msg=True), rpc("p1", "g3", apperr=True), HB, HB])
+    add("empty", {"limP": 2}, [pub("g1"), HB, rpc("p1", "g2", has_meta=False, has_msg=True), rpc("p1", "g3", apperr=True), HB, HB])
+    # the application refuses an RPC: the error comes back, the state (created before the callback) stays as it is
+    add("app-error", {"limP": 2, "limT": 2}, [rpc("p1", "g1", apperr=True), rpc("p1", "g1", meta=(1,)), rpc("p2", "g1", meta=(2,), apperr=True), rpc("p2", "g2", apperr=True),
+                                              rpc("p1", "g3", apperr=True), mesh(["p1"]), pub("g1"), rpc("p1", "g1", meta=(3,), apperr=True), HB, HB, HB, HB])
     # peer RPCs never refresh
     add("rpc-no-refresh", {}, [rpc("p1", "g1"), HB, rpc("p1", "g1", meta=(1,)), rpc("p2", "g1"), HB, HB, HB, HB])
     # limits: per peer, per topic, other topic untouched, existing group always served, drop leaves nothing
@@ -257,6 +261,13 @@ def obj_scenarios(ctx, pools):
             pool = pool[:lim[n]]
         for i, evs in enumerate(pool):
             acts = [a for e in evs for a in ev_to_act(e)]
+            if n == "gen-walks":
+                # seeded decoration outside the generator's alphabet: the application refuses an RPC / yields an action with an error
+                for a in acts:
+                    if a["a"] == "rpc" and rng.random() < 0.12:
+                        a["apperr"] = True
+                    elif a["a"] == "pub" and rng.random() < 0.15:
+                        a["err"] = rng.sample(OBJ_PEERS, rng.choice((1, 1, 2)))
             if n == "gen-bfs-count":
                 cfg = OBJ_CFGS[(0, 2, 3)[(i + ctx.seed) % 3]]
             else:
@@ -294,7 +305,7 @@ def slim_obj(row):
 
 def obj_trace_cfg():
     c = consts(Peers=sset(OBJ_PEERS), Topics=sset(OBJ_TOPICS), Groups=sset(OBJ_GROUPS), Parts="{0, 1, 2, 3, 4, 5, 6, 7}",
-               CTtl=3, CLimT=255, CLimP=8, ResetOnClose=True, StaleDec=True, Acts="{}")
+               CTtl=3, CLimT=255, CLimP=8, ResetOnClose=True, StaleDec=True, KeepEntries=True, Acts="{}")
     return vlib.cfg_text(spec="TraceSpec", constants=c, constraint="HW", postcondition="Accepted")
 
 
@@ -401,10 +412,12 @@ def validate_obj(ctx, runs, acc):
 
 OBJ_OBLIGATIONS = ["pub-new", "pub-refresh", "pub-converts-counted", "pub-converts-stale", "send-msg-and-meta", "send-meta-only", "send-msg-only",
                    "send-nothing", "msg-stripped-for-non-requester", "pub-action-error", "send-missing-parts", "mesh-peer-initialised",
-                   "rpc-creates", "rpc-peer-limit", "rpc-total-limit", "rpc-existing-at-limit", "rpc-on-local-group", "rpc-app-error",
+                   "pub-two-action-errors", "pub-action-error-others-sent",
+                   "rpc-creates", "rpc-peer-limit", "rpc-total-limit", "rpc-existing-at-limit", "rpc-on-local-group", "rpc-app-error-new-group",
+                   "rpc-app-error-existing-group",
                    "rpc-ignored-by-app", "metadata-merged", "expire-ttl", "expire-empty", "expire-counted", "expire-stale", "hb-survivor",
                    "close-removes-state", "close-resets-counter", "gossip-offered", "gossip-republished", "gossip-skips-peer-initiated",
-                   "gossip-all-tracked", "count-drift-seen"]
+                   "gossip-all-tracked", "count-drift-seen", "topic-dies"]
 
 WHAT = {
     "P_X04_a": "group lifecycle", "P_X04_b": "peer-initiated counters", "P_X04_c": "peer-initiated limits / dispatch of the RPC",
@@ -707,7 +720,7 @@ def slim_node(row, prev):
 
 def node_trace_cfg():
     c = consts(Peers=sset(NODE_PEERS), Topics=sset(OBJ_TOPICS), Groups=sset(OBJ_GROUPS), Parts="{0, 1, 2, 3, 4, 5, 6, 7}",
-               CTtl=3, CLimT=255, CLimP=8, ResetOnClose=True, StaleDec=True, Acts="{}")
+               CTtl=3, CLimT=255, CLimP=8, ResetOnClose=True, StaleDec=True, KeepEntries=True, Acts="{}")
     return vlib.cfg_text(spec="NodeTraceSpec", constants=c, constraint="HW", postcondition="Accepted")
 
 
